@@ -2799,6 +2799,24 @@ asset * asset_new(char * url, scratch_pad * scratch) {
 
 		// Create a unique local asset path
 		a->asset_path = uuid_new();
+
+		// rand() may have been re-seeded since the previous asset was stored (random
+		// footnote anchors do that), so make sure the path is not in use already
+		asset * other, * other_tmp;
+		bool clash;
+
+		do {
+			clash = false;
+
+			HASH_ITER(hh, scratch->asset_hash, other, other_tmp) {
+				if (strcmp(other->asset_path, a->asset_path) == 0) {
+					clash = true;
+					free(a->asset_path);
+					a->asset_path = uuid_new();
+					break;
+				}
+			}
+		} while (clash);
 	}
 
 	return a;
